@@ -4,10 +4,10 @@ PROP = "C03"
 LEANCHECK_MODULES = ["Ivy.L1.Machine", "Ivy.L1.Exec", "Ivy.Mon.C03", "Ivy.L1.ProofsC03", "Ivy.Props.C03"]
 FAMILIES = ['churn', 'storm']
 MONS = ['C03']
-SANS = []
+SANS = ['null-call']       # a cleared (NULL) handler slot was called
 RULE = ("scenario families ['churn', 'storm'] (see vlib/loopgen.py) rotating over the four poll methods and the fault configurations; every log is "
         "replayed through the Lean machine (every library record must be predicted) and through the Lean monitor(s) ['C03']; sanitizer "
-        "classes counted as violations of this property: []. non-trivial = a descriptor callback ran and a later wait reported the descriptor again (or not) after its readiness changed; distinct by hash of the log")
+        "classes counted as violations of this property: ['null-call' = a jump through a NULL function pointer inside the library, i.e. a cleared handler slot was called]. non-trivial = a descriptor callback ran and a later wait reported the descriptor again (or not) after its readiness changed; distinct by hash of the log")
 
 RETRACT_RULE = ("; plus the ENUMERATED family 'retract' (416 scenarios per run, not sampled: 264 same-iteration retractions, 24 failed-then-real registrations, 128 failed registration followed by release of the object and table compaction): 4 methods x {descriptor, cross-thread iv_event, iv_event_raw} "
                 "handler dispatched first x 10 manipulations of another source collected in the same iteration (handlers cleared then unregistered, "
